@@ -1,0 +1,23 @@
+//go:build verif
+
+package avg
+
+// Contracts for uda/avg (C23), checked by /verif/govc. Compiled only with -tags=verif.
+// psum(k): sum of the first k converted input values, added left to right (defined per call by the loop's
+// `define` clauses; real arithmetic: the contract pins down which elements are added, how often and in which
+// order, not the float64 rounding).
+
+//@ ghost func psum(k int) real
+
+//@ func (*Avg).Accum
+//@ props C23
+//@ option nooverflow
+//@ requires #noOverflow: a.Count >= 0 && a.Count <= 4611686018427387904
+//@ assumes #pkgvar: len(requiredColumns) >= 1
+//@ loop 0 define #psum0: psum(0) == 0.0
+//@ loop 0 define #psumStep: forallint(k, pattern(psum(k)), (0 <= k && k < len(inputCol)) ==> psum(k+1) == psum(k) + inputCol[k])
+//@ loop 0 invariant #idx: 0 <= iter0 && iter0 <= len(inputCol)
+//@ loop 0 invariant #count: a.Count == old(a.Count) + iter0
+//@ loop 0 invariant #sum: a.Avg == old(a.Avg) + psum(iter0)
+//@ exit #count: result1 == nil ==> a.Count == old(a.Count) + colLen(cols)
+//@ exit #sum: result1 == nil && colLen(cols) > 0 ==> a.Avg == old(a.Avg) + psum(len(inputCol))
